@@ -61,6 +61,11 @@ impl Clone for OutPoint { #[verifier::external_body] fn clone(&self) -> (r: OutP
 // `impl Encodable for OutPoint` is C01's subject (Kani units c01_*): txid bytes then little-endian vout
 pub open spec fn ser_outpoint(o: OutPoint) -> Seq<u8> { o.txid@ + le32(o.vout) }
 impl OutPoint {
+//@extract file=src/transaction.rs fn=new in="impl OutPoint" vis=keep
+//@ret r
+//@spec
+//@|     ensures r.txid == txid, r.vout == vout
+//@end
     #[verifier::external_body]
     pub fn consensus_encode(&self, e: &mut sha256d::HashEngine) -> (r: Result<usize, EncError>)
         ensures r is Ok, final(e).fed@ == old(e).fed@ + ser_outpoint(*self)
@@ -180,6 +185,16 @@ pub mod confidential {
     impl Copy for Value {}
     impl Clone for Value { #[verifier::external_body] fn clone(&self) -> (r: Value) ensures r == *self { unimplemented!() } }
     impl Value {
+//@extract file=src/confidential.rs fn=is_null in="impl Value" vis=keep
+//@ret r
+//@spec
+//@|     ensures r == (*self is Null)
+//@end
+//@extract file=src/confidential.rs fn=is_explicit in="impl Value" vis=keep
+//@ret r
+//@spec
+//@|     ensures r == (*self is Explicit)
+//@end
 //@extract file=src/confidential.rs fn=is_confidential in="impl Value" vis=keep
 //@ret r
 //@spec
